@@ -132,7 +132,10 @@ def _scalar(v):
 
 
 def _eq(a, b):
+    import numpy as np
     from formulas.tokens.operand import XlError
+    a = bool(a) if isinstance(a, np.bool_) else a
+    b = bool(b) if isinstance(b, np.bool_) else b
     if isinstance(a, XlError) or isinstance(b, XlError):
         return a is b
     if isinstance(a, float) and isinstance(b, float) and a != a and b != b:
@@ -196,6 +199,9 @@ def _check_lift(case):
     if out_shape is None:
         return None
     arrays = [_mkvals(s, seed + 31 * k, name, k) for k, s in enumerate(shapes)]
+    if seed % 2:
+        # the same values in column-major memory order (what TRANSPOSE and sliced ranges produce): positions must not depend on it
+        arrays = [np.asfortranarray(a) for a in arrays]
     args = [a if a.shape != (1, 1) or (seed + k) % 2 else a[0, 0] for k, a in enumerate(arrays)]
     try:
         got = np.asarray(_call(name, args), object)
@@ -215,8 +221,9 @@ def _check_lift(case):
     return None
 
 
-ELEMENTWISE = ['+', '-', '*', '/', '&', '=', '<', 'ABS', 'ROUND', 'IF', 'CONCATENATE', 'LEFT', 'MOD', 'POWER', 'DATE', 'DAY', 'WEEKDAY', 'FACT', 'DECIMAL']
-ARITY = {'FACT': (1,), 'DECIMAL': (2,), 'DATE': (3,), 'DAY': (1,), 'WEEKDAY': (1, 2), 'ABS': (1,), 'ROUND': (2,), 'IF': (3,), 'CONCATENATE': (1, 2, 3, 5, 31, 32, 33, 40), 'LEFT': (2,), 'MOD': (2,), 'POWER': (2,)}
+ELEMENTWISE = ['+', '-', '*', '/', '&', '=', '<', 'ABS', 'ROUND', 'IF', 'CONCATENATE', 'LEFT', 'MOD', 'POWER', 'DATE', 'DAY', 'WEEKDAY', 'FACT', 'DECIMAL',
+               'ISNUMBER', 'ISTEXT', 'ISNONTEXT', 'ISLOGICAL', 'ISBLANK', 'ISNA', 'ISERR', 'ISERROR']
+ARITY = {'ISNUMBER': (1,), 'ISTEXT': (1,), 'ISNONTEXT': (1,), 'ISLOGICAL': (1,), 'ISBLANK': (1,), 'ISNA': (1,), 'ISERR': (1,), 'ISERROR': (1,), 'FACT': (1,), 'DECIMAL': (2,), 'DATE': (3,), 'DAY': (1,), 'WEEKDAY': (1, 2), 'ABS': (1,), 'ROUND': (2,), 'IF': (3,), 'CONCATENATE': (1, 2, 3, 5, 31, 32, 33, 40), 'LEFT': (2,), 'MOD': (2,), 'POWER': (2,)}
 
 
 def _lift_cases(tier, rng):
@@ -265,7 +272,7 @@ BOUNDED = [
           '(Array.reshape, Ranges.set_value with an Array, a cell formula stored into a range)',
           classify=_classify_fit, exhaustive=True, max_report=400),
     Stage('B2:lifting-the-scalar-rule-element-wise', 'C05', _lift_cases, _check_lift,
-          '19 operators / element-wise functions (incl. kernels that signal errors by exception, and FACT / DECIMAL whose exact integer results leave the 64-bit and the float range); all broadcastable shape combinations of 8 shapes for arity <= 3; CONCATENATE with '
+          '27 operators / element-wise functions (the eight IS... functions, which have a loop of their own; every second case with its arrays in column-major memory order; incl. kernels that signal errors by exception, and FACT / DECIMAL whose exact integer results leave the 64-bit and the float range); all broadcastable shape combinations of 8 shapes for arity <= 3; CONCATENATE with '
           '1..40 arguments (both sides of the 32-argument split); element values of every kind; compared position by position with the '
           'same function applied to the broadcast scalars', classify=_classify_lift, max_report=400),
 ]
